@@ -15,7 +15,7 @@ try:
     r = subprocess.run(["patch", "-p1", "-s", "-i", patch], cwd=d, capture_output=True, text=True)
     if r.returncode:
         print("PATCH FAILED", r.stdout, r.stderr); sys.exit(3)
-    env = dict(os.environ, PYTHONPATH="/verif", LBSA_NO_EVIDENCE="1")
+    env = dict(os.environ, PYTHONPATH="/verif", LBSA_EVIDENCE_DIR=f"{d}/evidence", PYTHONDONTWRITEBYTECODE="1")
     worst = 0
     for pid in pids:
         r = subprocess.run(["/venv/bin/python", "-m", "lbsa.cli", "check", pid, "--repo", d], env=env, cwd="/verif",
